@@ -94,6 +94,47 @@ theorem C14_no_spurious_panic (P : Par) (ex : Exec) (h : ex.Accepts P.src.items)
   rw [workerRes_map_ok _ pe _ ex.order hno, RunnerP.reduce_ok, RunnerP.runMap_ok]
   simp [Exec.reduce, Exec.runMap]
 
+/-- **C14 (the check's panic prediction, `panicPred`, answer "no").** if neither the construction
+    effects nor any possible invocation of the terminal equals `pe`, then no execution — full
+    visit or short-circuit, any tiling of any pulled prefix, any distribution over workers —
+    evaluates `pe`: the call cannot panic because of it -/
+theorem C14_pred_no_sound (eff : List Event) (P : Par) (t : Terminal) (pe : Event) (ex : Exec) (n : Nat)
+    (hfull : t.isShortCircuit = false →
+      (P.forTerminal t).1.params.isSequential = true ∨ ex.Accepts (P.forTerminal t).1.src.items)
+    (hshort : t.isShortCircuit = true → P.params.isSequential = true ∨
+      (Tiles ex.asg 0 (P.src.items.take n) ∧ ex.order.Nodup ∧ ∀ c ∈ ex.asg, c.tid ∈ ex.order))
+    (h : panicPred eff P t pe = .no) : pe ∉ eff ++ P.termLog ex t := by
+  unfold panicPred at h
+  split at h
+  · cases h
+  · rename_i h1
+    split at h
+    · cases h
+    · rename_i h2
+      simp only [Bool.or_eq_true, List.contains_iff_mem, not_or] at h1
+      simp only [List.contains_iff_mem] at h2
+      intro hm
+      rcases List.mem_append.mp hm with hm | hm
+      · exact h1.1 hm
+      · cases hsc : t.isShortCircuit with
+        | false => exact h2 ((Par.termLog_perm_full P ex t hsc (hfull hsc)).mem_iff.mp hm)
+        | true => exact h2 (Par.termLog_sub_possible_short P ex t hsc n (hshort hsc) pe hm)
+
+/-- **C14 (answer "yes", full-visit terminals).** every accepted execution evaluates `pe` -/
+theorem C14_pred_yes_full (eff : List Event) (P : Par) (t : Terminal) (pe : Event) (ex : Exec)
+    (hsc : t.isShortCircuit = false)
+    (hacc : (P.forTerminal t).1.params.isSequential = true ∨ ex.Accepts (P.forTerminal t).1.src.items)
+    (h : panicPred eff P t pe = .yes) : pe ∈ eff ++ P.termLog ex t := by
+  unfold panicPred at h
+  split at h
+  · rename_i h1
+    simp only [Bool.or_eq_true, List.contains_iff_mem] at h1
+    rcases h1 with h1 | h1
+    · exact List.mem_append_left _ h1
+    · rw [Par.certain_eq_possible_full P t hsc] at h1
+      exact List.mem_append_right _ ((Par.termLog_perm_full P ex t hsc hacc).mem_iff.mpr h1)
+  · split at h <;> cases h
+
 /-- the refuted alternative (a seeded change once made `run_map` collect its handles with
     `flat_map(|h| h.join())`): the panic is swallowed and a value is returned -/
 theorem C14_swallowing_join_returns_a_value :
